@@ -1,9 +1,10 @@
 import Driver.Core
 import RrModel.Spec.C18
 import RrModel.Generated.Facts
-/- streams: sysr, kf.C18-a, kf.C18-b — restart_on_redirect on the uncached path (C18); kf.C18-b is
-   the regression stream of the repaired finding C18-b (no class label any more: a failure there
-   is a violation) -/
+/- streams: sysr, kf.C18-a, kf.C18-b — restart_on_redirect on the uncached path (C18); kf.C18-a and
+   kf.C18-b are the regression streams of the repaired findings C18-a (redirect loops: now ended
+   by the hop counter with 508) and C18-b (no class label any more: a failure there is a
+   violation) -/
 open Go Model Proto Model.Redirect Spec.C18
 
 namespace H.SysR
@@ -91,7 +92,8 @@ def hSysR : Handler := fun impl => do
   if ¬ rcs.all (·.valid) then return { model := "err:rules", label := "rules-rejected" }
   let rules := rcs.map (·.rule)
   let cfg : Cfg := { rules := rules, origin := originOf nodes known,
-                     isRedirect := fun s => Facts.redirectStatuses.contains s }
+                     isRedirect := fun s => Facts.redirectStatuses.contains s,
+                     maxRedirects := Facts.maxRedirects }
   match clientLevel target host [] b!"GET" with
   | none => return { model := "err:target", label := "bad-target" }
   | some lvl =>
@@ -109,12 +111,12 @@ def hSysR : Handler := fun impl => do
   let allRestart := rules.all (·.restartOnRedirect)
   let start := nodes.findIdx? (·.path = pathOfUri target)
   let chain : ChainEnd := match start with | some s => chainEnd nodes nodes.length s | none => .unspecified
-  let diverged : Bool := match out with | .diverged => true | _ => false
   -- distribution label only: a relative Location merged below a directory other than the root
   -- (the inputs of the repaired finding C18-b)
   let deepJoin := (hopsOf nodes hops).any fun (a, l, _) =>
     formOf l == .relative && baseDir (pathOfUri a.uri) != b!"/"
-  let cls := if chain = .cycle ∧ diverged ∧ allRestart then "C18-a" else ""
+  -- no known-finding class on this stream any more (C18-a, C18-b repaired)
+  let cls := ""
   let oracle :=
     if ¬ allRestart then "na" else
     match run pObs impl, start with
@@ -132,7 +134,8 @@ def hSysR : Handler := fun impl => do
     (match out with
      | .diverged => "runaway"
      | .done (.response r _) cs => (if cfg.isRedirect r.status then "passthrough" else s!"final:{r.status}") ++ s!"/h{cs.length}"
-     | .done (.userError c _) cs => s!"self:{c}/h{cs.length}"
+     | .done (.userError c _) cs =>
+       (if c = 508 ∧ cs.length > cfg.maxRedirects then "bound:508" else s!"self:{c}") ++ s!"/h{cs.length}"
      | .done .plainError cs => s!"self:500/h{cs.length}"
      | .done .panicked _ => "panic"
      | .done .outside _ => "outside") ++
